@@ -40,6 +40,7 @@ def dispatch (dom : String) (ops : Array String) : Array String :=
   | "atomicwrite" => AtomicWrite.runCase ops
   | "notebook" => Notebook.runCase ops
   | "cachelayer" => CacheLayer.runCase ops
+  | "keyjson" => CacheLayer.runCase ops
   | "fuzzy" => Fuzzy.runCase ops
   | "cli" => Cli.runCase ops
   | "boosts" => Search.runCase ops
